@@ -69,4 +69,9 @@ def run(ctx: Ctx):
         if i == 0:
             ctx.sample({"kind": "C->S trace (commands)", "events": [e for e in dd.clean_trace(ctl.trace) if e["a"] not in ("Notif", "Exec")][:10]})
     dc.validate_groups(ctx, groups)
+    # segmentation must not change what is executed, also when LISTENERS schedule and cancel (step() takes its event off the list
+    # before announcing it, exactly like the run loop; a STOP listener's event at the bound belongs to the next segment)
+    from checks import c02 as _c02
+    _c02.listener_scheduling(ctx, scale=0.4)
+    _c02.segment_listeners(ctx, scale=0.6)
     dc.selftest(ctx, groups)
